@@ -3,7 +3,7 @@
    function E, IS ModelCtr.crypt_loop at batch size 1: same output bytes, same counter, same buffered key stream, same
    offset.  In particular the byte-wise carry loop of the specification is big-endian addition of 1. *)
 From Coq Require Import List Bool NArith Arith Lia.
-From Skinny Require Import Bits IR SIR Anf IRCheck KernelSpecs KernelSpecs2 KernelHom SIRCheck WholeSpecs SIRProofs
+From Skinny Require Import Bits IR SIR Anf IRCheck KernelSpecs KernelSpecs2 KernelHom SIRCheck WholeSpecs SIRProofs Frame
                            ModelCipher ModelCtr WholeBridge WholeKey WholeProc WholeCtr.
 Import ListNotations.
 
@@ -25,6 +25,12 @@ Qed.
 
 (* ---- the carry loop: one byte, by a finite sweep ---- *)
 Definition c16 (c : N) : list bool := const_bits bool false true 16 c.
+Fixpoint list_beq (A : Type) (eqb : A -> A -> bool) (a b : list A) : bool :=
+  match a, b with
+  | [], [] => true
+  | x :: a', y :: b' => eqb x y && list_beq A eqb a' b'
+  | _, _ => false
+  end.
 Definition inc_step_ok (c : N) (b : byte) : bool :=
   let s := (N_of_byte b + c)%N in
   let r := inc_step bool xorb andb false (c16 c) (bits_of_c8 bool b) in
@@ -71,3 +77,404 @@ Proof.
   rewrite inc_rev_bits_spec by lia. rewrite map_rev. reflexivity.
 Qed.
 Print Assumptions incB_spec.
+
+(* ================================================================================================== *)
+(* lists: slices and splices of a concatenation                                                         *)
+(* ================================================================================================== *)
+Definition slice {A} (l : list A) (off n : nat) : list A := firstn n (skipn off l).
+Lemma sub_is_slice : forall (l : list (list bool)) off n, subB l off n = slice l off n.
+Proof. reflexivity. Qed.
+
+Lemma slice_mid : forall {A} (a x r : list A) o n, o + n <= length x ->
+  slice (a ++ x ++ r) (length a + o) n = slice x o n.
+Proof.
+  intros A a x r o n H. unfold slice. rewrite skipn_add, skipn_app, Nat.sub_diag, skipn_all. cbn [app skipn].
+  rewrite skipn_app, firstn_app, skipn_length.
+  replace (n - (length x - o)) with 0 by lia. rewrite firstn_O, app_nil_r. reflexivity.
+Qed.
+Lemma slice_mid0 : forall {A} (a x r : list A), slice (a ++ x ++ r) (length a) (length x) = x.
+Proof.
+  intros A a x r. rewrite <- (Nat.add_0_r (length a)), slice_mid by lia. unfold slice. cbn [skipn]. apply firstn_all.
+Qed.
+Lemma slice_at : forall {A} (a x r : list A) n k, length a = n -> length x = k -> slice (a ++ x ++ r) n k = x.
+Proof. intros A a x r n k <- <-. apply slice_mid0. Qed.
+Lemma slice_head : forall {A} (x r : list A) n, n <= length x -> slice (x ++ r) 0 n = firstn n x.
+Proof.
+  intros A x r n H. unfold slice. cbn [skipn]. rewrite firstn_app. replace (n - length x) with 0 by lia.
+  rewrite firstn_O, app_nil_r. reflexivity.
+Qed.
+
+Lemma splice_mid : forall (a x r x' : list (list bool)), length x' = length x ->
+  spl (a ++ x ++ r) (length a) x' = a ++ x' ++ r.
+Proof.
+  intros a x r x' H. unfold splice.
+  rewrite firstn_app, Nat.sub_diag, firstn_all, firstn_O, app_nil_r. f_equal. f_equal.
+  rewrite H, skipn_add, skipn_app, Nat.sub_diag, skipn_all. cbn [app skipn].
+  rewrite skipn_app, Nat.sub_diag, skipn_all. reflexivity.
+Qed.
+Lemma splice_length : forall (l new : list (list bool)) pos, pos + length new <= length l ->
+  length (spl l pos new) = length l.
+Proof.
+  intros l new pos H. unfold splice. rewrite !app_length, firstn_length, skipn_length. lia.
+Qed.
+
+(* ---- store_bytes is a splice, load is the concatenation of a slice ---- *)
+Lemma set_nth_split : forall {A} (l : list A) i x, i < length l -> set_nth i x l = firstn i l ++ x :: skipn (S i) l.
+Proof.
+  intros A l. induction l as [|y l IH]; intros i x H; [cbn in H; lia|].
+  destruct i as [|i]; [reflexivity|]. cbn [set_nth firstn skipn app]. rewrite IH by (cbn in H; lia). reflexivity.
+Qed.
+Lemma store_bytes_splice : forall (new l : list (list bool)) off, off + length new <= length l ->
+  store_bytes bool off new l = spl l off new.
+Proof.
+  induction new as [|b new IH]; intros l off H.
+  - unfold splice. cbn [store_bytes app length]. rewrite Nat.add_0_r, firstn_skipn. reflexivity.
+  - cbn [store_bytes length] in *. rewrite IH by (rewrite set_nth_length; lia).
+    rewrite set_nth_split by lia. unfold splice.
+    rewrite firstn_app, firstn_length, Nat.min_l by lia.
+    replace (S off - off) with 1 by lia. rewrite (firstn_all2 (firstn off l)) by (rewrite firstn_length; lia).
+    cbn [firstn app]. rewrite <- app_assoc. cbn [app]. f_equal. f_equal. f_equal.
+    rewrite skipn_app, firstn_length, Nat.min_l by lia.
+    rewrite (skipn_all2 (firstn off l)) by (rewrite firstn_length; lia). cbn [app].
+    replace (S off + length new - off) with (S (length new)) by lia. rewrite skipn_cons.
+    replace (off + length (b :: new)) with (S off + length new) by (cbn [length]; lia). rewrite skipn_add. reflexivity.
+Qed.
+
+Definition bytes8 (l : list (list bool)) : Prop := Forall (fun b => length b = 8) l.
+Lemma take_pad_id8 : forall (b : list bool), length b = 8 -> take_pad bool 8 false b = b.
+Proof. intros b H. do 8 (destruct b as [|? b]; [discriminate|]). destruct b; [reflexivity | discriminate]. Qed.
+Lemma load_slice : forall (m : mem bool) r off n, bytes8 (nth r m []) -> off + n <= length (nth r m []) ->
+  load bool false m r off n = concat (slice (nth r m []) off n).
+Proof.
+  intros m r off n H8 Hn. unfold load. set (l := nth r m []) in *.
+  revert off Hn. induction n as [|n IH]; intros off Hn.
+  - unfold slice. rewrite firstn_O. reflexivity.
+  - rewrite seq_S. rewrite map_app, concat_app. cbn [map concat]. rewrite app_nil_r.
+    rewrite IH by lia. unfold slice.
+    assert (E : firstn (S n) (skipn off l) = firstn n (skipn off l) ++ [nth (off + n) l (byte0_ bool false)]).
+    { assert (Hl : n < length (skipn off l)) by (rewrite skipn_length; lia).
+      rewrite <- (nth_skipn' l off n). clear - Hl. revert Hl. generalize (skipn off l) as k. intros k. revert n.
+      induction k as [|y k IHk]; intros n Hl; [cbn in Hl; lia|].
+      destruct n as [|n]; [reflexivity|]. cbn [firstn nth app]. rewrite <- IHk by (cbn in Hl; lia). reflexivity. }
+    rewrite E, concat_app. cbn [concat]. rewrite app_nil_r. f_equal.
+    apply take_pad_id8. unfold bytes8 in H8. rewrite Forall_forall in H8. apply H8. apply nth_In. lia.
+Qed.
+
+Lemma bytes_of_concat : forall (L : list (list bool)), bytes8 L -> bytes_of bool false (length L) (concat L) = L.
+Proof.
+  induction L as [|b L IH]; intros H; [reflexivity|]. inversion H as [|b' L' Hb HL]; subst.
+  cbn [length bytes_of concat]. rewrite firstn_app, Hb, Nat.sub_diag, firstn_O, app_nil_r, firstn_all2 by lia.
+  rewrite take_pad_id8 by exact Hb. f_equal.
+  rewrite skipn_app, Hb, Nat.sub_diag, skipn_all2 by lia. cbn [app skipn]. apply IH. exact HL.
+Qed.
+Lemma bytes_of_concat_n : forall (L : list (list bool)) n, bytes8 L -> length L = n -> bytes_of bool false n (concat L) = L.
+Proof. intros L n H <-. apply bytes_of_concat. exact H. Qed.
+Lemma bitsB_bytes8 : forall l : list byte, bytes8 (bitsB l).
+Proof. intros l. apply bits_len8. Qed.
+
+Lemma inc_rev_length : forall l c, length (inc_rev l c) = length l.
+Proof. induction l as [|b l IH]; intros c; [reflexivity|]. cbn [inc_rev length]. rewrite IH. reflexivity. Qed.
+Lemma inc_counter_length : forall c k, length (inc_counter c k) = length c.
+Proof. intros c k. unfold inc_counter. rewrite rev_length, inc_rev_length, rev_length. reflexivity. Qed.
+
+Lemma skipn_app_exact : forall {A} (p r : list A) n, length p = n -> skipn n (p ++ r) = r.
+Proof. intros A p r n <-. rewrite skipn_app, Nat.sub_diag, skipn_all. reflexivity. Qed.
+Lemma firstn_app_exact : forall {A} (p r : list A) n, length p = n -> firstn n (p ++ r) = p.
+Proof. intros A p r n <-. rewrite firstn_app, Nat.sub_diag, firstn_all, firstn_O, app_nil_r. reflexivity. Qed.
+Lemma bytes_of_bytes8 : forall n l, bytes8 (bytes_of bool false n l).
+Proof.
+  induction n as [|n IH]; intros l; [constructor|]. cbn [bytes_of]. constructor; [apply take_pad_length | apply IH].
+Qed.
+Lemma splice_app : forall (O a b : list (list bool)) pos, pos + length a + length b <= length O ->
+  spl O pos (a ++ b) = spl (spl O pos a) (pos + length a) b.
+Proof.
+  intros O a b pos H. unfold splice.
+  set (R := skipn (pos + length a) O).
+  assert (LP : length (firstn pos O ++ a) = pos + length a) by (rewrite app_length, firstn_length; lia).
+  rewrite (app_assoc (firstn pos O) a R).
+  rewrite (firstn_app_exact _ R _ LP).
+  rewrite (skipn_add (pos + length a) (length b)), (skipn_app_exact _ R _ LP).
+  rewrite <- !app_assoc. f_equal. f_equal. f_equal.
+  unfold R. rewrite <- skipn_add, app_length. f_equal. lia.
+Qed.
+
+(* ================================================================================================== *)
+(* the specification steps on the image of a model state                                                *)
+(* ================================================================================================== *)
+Section OnImage.
+  Variables (bs kn coff fno : nat).
+  Let eoff := coff + bs.
+  Let ooff := coff + bs + bs.
+  Variable cB : nat -> list bool -> list bool.
+  Variable E : list byte -> list byte.
+  Variables (I CO KS pad : list (list bool)) (inp : list byte).
+  Hypothesis HI : I = bitsB inp.
+  Hypothesis HKS : length KS = coff.
+  Hypothesis HKS8 : bytes8 KS.
+  Hypothesis Hpad8 : bytes8 pad.
+  Hypothesis Hkn : kn <= coff.
+  Hypothesis HE : forall blk, length blk = bs -> length (E blk) = bs.
+  (* the contract of the procedure call: on (counter block, key-schedule object) it returns E(counter block) *)
+  Hypothesis Hcb : forall blk, length blk = bs ->
+    cB fno (concat (bitsB blk) ++ concat (firstn kn KS)) = concat (bitsB (E blk)).
+
+  Definition img (O : list (list bool)) (cnt ecnt : list byte) (off : nat) : mem bool :=
+    [O; I; CO; KS ++ bitsB cnt ++ bitsB ecnt ++ rbytes off ++ pad].
+
+  Lemma step_inc : forall O cnt ecnt off, length cnt = bs ->
+    s_inc bool xorb andb false true bs coff (img O cnt ecnt off) = img O (inc_counter cnt 1) ecnt off.
+  Proof.
+    intros O cnt ecnt off Hc. unfold byte in *. unfold s_inc, img, mk4m, reg. cbn [nth]. rewrite !sub_is_slice.
+    rewrite (slice_at KS (bitsB cnt) _ coff bs HKS) by (rewrite map_length; exact Hc).
+    rewrite incB_spec. rewrite <- HKS. rewrite splice_mid by (rewrite !map_length, inc_counter_length; reflexivity). reflexivity.
+  Qed.
+
+  Lemma step_setoff : forall O cnt ecnt off v, length cnt = bs -> length ecnt = bs ->
+    s_setoff bool false true ooff v (img O cnt ecnt off) = img O cnt ecnt v.
+  Proof.
+    intros O cnt ecnt off v Hc He. unfold byte in *. unfold s_setoff, img, mk4m, reg. cbn [nth]. fold (rbytes v).
+    assert (L : length (KS ++ bitsB cnt ++ bitsB ecnt) = ooff) by (rewrite !app_length, !map_length, HKS, Hc, He; unfold ooff; lia).
+    replace (KS ++ bitsB cnt ++ bitsB ecnt ++ rbytes off ++ pad) with ((KS ++ bitsB cnt ++ bitsB ecnt) ++ rbytes off ++ pad)
+      by (rewrite <- !app_assoc; reflexivity).
+    rewrite <- L, splice_mid by (rewrite !rbytes_len; reflexivity). rewrite <- !app_assoc. reflexivity.
+  Qed.
+
+  Lemma step_xor : forall O cnt ecnt off pos o n, length cnt = bs -> length ecnt = bs -> o + n <= bs ->
+    s_xor bool xorb pos (eoff + o) n (img O cnt ecnt off)
+    = img (spl O pos (bitsB (xor_bytes (slice inp pos n) (slice ecnt o n)))) cnt ecnt off.
+  Proof.
+    intros O cnt ecnt off pos o n Hc He Hn. unfold byte in *. unfold s_xor, img, mk4m, reg. cbn [nth]. rewrite !sub_is_slice.
+    f_equal. f_equal. rewrite HI. change (slice (bitsB inp) pos n) with (subB (bitsB inp) pos n). rewrite sub_bits.
+    replace (KS ++ bitsB cnt ++ bitsB ecnt ++ rbytes off ++ pad) with ((KS ++ bitsB cnt) ++ bitsB ecnt ++ rbytes off ++ pad)
+      by (rewrite <- !app_assoc; reflexivity).
+    assert (L : length (KS ++ bitsB cnt) = eoff) by (rewrite app_length, map_length, HKS, Hc; reflexivity).
+    rewrite <- L, slice_mid by (rewrite map_length; lia).
+    change (slice (bitsB ecnt) o n) with (subB (bitsB ecnt) o n). rewrite sub_bits. apply xorB_bits.
+  Qed.
+
+  Lemma ctx_bytes8 : forall cnt ecnt off, bytes8 (KS ++ bitsB cnt ++ bitsB ecnt ++ rbytes off ++ pad).
+  Proof.
+    intros. unfold bytes8. repeat (apply Forall_app; split); try apply bits_len8; try assumption.
+    apply bytes_of_bytes8.
+  Qed.
+
+  Lemma step_proc : forall O cnt ecnt off, length cnt = bs -> length ecnt = bs ->
+    entry_sem cB (Some [pstmt bs kn coff eoff fno], ident bool) (img O cnt ecnt off) = img O cnt (E cnt) off.
+  Proof.
+    intros O cnt ecnt off Hc He. unfold byte in *. unfold entry_sem, pstmt. cbn [fst]. unfold execB, exec. cbn [fold_left exec1 fst eval map concat].
+    rewrite app_nil_r. unfold store, img. cbn [nth set_nth].
+    assert (Ltot : length (KS ++ bitsB cnt ++ bitsB ecnt ++ rbytes off ++ pad) = coff + bs + bs + 4 + length pad)
+      by (rewrite !app_length, !map_length, rbytes_len, HKS, Hc, He; lia).
+    rewrite !load_slice; cbn [nth]; try apply ctx_bytes8; try lia.
+    rewrite (slice_at KS (bitsB cnt) _ coff bs HKS) by (rewrite map_length; exact Hc).
+    rewrite slice_head by lia. rewrite (Hcb cnt Hc).
+    rewrite (bytes_of_concat_n (bitsB (E cnt)) bs (bits_len8 _)) by (rewrite map_length; apply HE; exact Hc).
+    rewrite store_bytes_splice by (rewrite Ltot, map_length, HE by exact Hc; unfold eoff; lia).
+    replace (KS ++ bitsB cnt ++ bitsB ecnt ++ rbytes off ++ pad) with ((KS ++ bitsB cnt) ++ bitsB ecnt ++ rbytes off ++ pad)
+      by (rewrite <- !app_assoc; reflexivity).
+    assert (L : length (KS ++ bitsB cnt) = eoff) by (rewrite app_length, map_length, HKS, Hc; reflexivity).
+    rewrite <- L, splice_mid by (rewrite !map_length, HE by exact Hc; symmetry; exact He).
+    rewrite <- !app_assoc. reflexivity.
+  Qed.
+End OnImage.
+
+(* ================================================================================================== *)
+(* the specification program = ModelCtr.crypt_loop (batch size 1) on the image                          *)
+(* ================================================================================================== *)
+Lemma splice_nil : forall (O : list (list bool)) pos, spl O pos [] = O.
+Proof. intros O pos. unfold splice. cbn [app length]. rewrite Nat.add_0_r. apply firstn_skipn. Qed.
+Lemma skipn_nonempty_length : forall {A} (l : list A) n x r, skipn n l = x :: r -> n < length l.
+Proof.
+  intros A l n x r H. destruct (Nat.lt_ge_cases n (length l)) as [Hl|Hl]; [exact Hl|].
+  rewrite skipn_all2 in H by exact Hl. discriminate.
+Qed.
+
+Lemma xor_bytes_trunc : forall a b, xor_bytes a (firstn (length a) b) = xor_bytes a b.
+Proof.
+  induction a as [|x a IH]; intros [|y b]; try reflexivity. cbn [length firstn xor_bytes]. rewrite IH. reflexivity.
+Qed.
+Lemma mixed_sem_nil : forall cB m, mixed_sem cB [] m = m.
+Proof. reflexivity. Qed.
+Lemma entry_sem_none : forall cB (f : mem bool -> mem bool) m, entry_sem cB (None, f) m = f m.
+Proof. reflexivity. Qed.
+
+Section Main.
+  Variables (bs kn coff fno : nat).
+  Let eoff := coff + bs.
+  Let ooff := coff + bs + bs.
+  Variable cB : nat -> list bool -> list bool.
+  Variable E : list byte -> list byte.
+  Variables (I CO KS pad : list (list bool)) (inp : list byte).
+  Hypothesis HI : I = bitsB inp.
+  Hypothesis HKS : length KS = coff.
+  Hypothesis HKS8 : bytes8 KS.
+  Hypothesis Hpad8 : bytes8 pad.
+  Hypothesis Hkn : kn <= coff.
+  Hypothesis Hbs : 0 < bs.
+  Hypothesis HE : forall blk, length blk = bs -> length (E blk) = bs.
+  Hypothesis Hcb : forall blk, length blk = bs ->
+    cB fno (concat (bitsB blk) ++ concat (firstn kn KS)) = concat (bitsB (E blk)).
+  Notation IMG := (img I CO KS pad).
+  Notation st cnt ecnt off := {| c_key := tt; c_lanes := [cnt]; c_ecounter := ecnt; c_off := off |}.
+  Notation loop := (crypt_loop unit (fun _ => E) bs 1).
+  Notation spec := (cmicroB bs kn coff eoff ooff fno).
+
+  Let Sproc := step_proc bs kn coff fno cB E I CO KS pad HKS HKS8 Hpad8 Hkn HE Hcb.
+  Let Sinc := step_inc bs coff I CO KS pad HKS.
+  Let Soff := step_setoff bs kn coff I CO KS pad HKS Hkn.
+  Let Sxor := step_xor bs kn coff I CO KS pad inp HI HKS Hkn.
+
+  Lemma Sxor0 : forall (O : list (list bool)) (cnt ecnt : list byte) (off pos n : nat),
+    length cnt = bs -> length ecnt = bs -> n <= bs ->
+    s_xor bool xorb pos eoff n (IMG O cnt ecnt off)
+    = IMG (spl O pos (bitsB (xor_bytes (slice inp pos n) (slice ecnt 0 n)))) cnt ecnt off.
+  Proof. intros. rewrite <- (Nat.add_0_r eoff). apply Sxor; assumption || lia. Qed.
+  Lemma BS1 : BS bs 1 = bs.
+  Proof. unfold BS. lia. Qed.
+
+  Theorem cmicro_model : forall fuel off size pos O cnt ecnt c' outb,
+    length cnt = bs -> length ecnt = bs -> off <= bs -> pos + size = length inp -> length O = length inp ->
+    loop fuel (st cnt ecnt off) (skipn pos inp) = Some (c', outb) ->
+    exists cnt' ecnt', c_lanes c' = [cnt'] /\ c_ecounter c' = ecnt' /\ length cnt' = bs /\ length ecnt' = bs /\
+      length outb = size /\
+      mixed_sem cB (spec fuel off size pos) (IMG O cnt ecnt off) = IMG (spl O pos (bitsB outb)) cnt' ecnt' (c_off c').
+  Proof.
+    induction fuel as [|f IH]; intros off size pos O cnt ecnt c' outb Hc He Hoff Hps HO Hl.
+    - destruct size as [|sz].
+      + rewrite skipn_all2 in Hl by lia. cbn [crypt_loop] in Hl. inversion Hl; subst.
+        exists cnt, ecnt. cbn [c_lanes c_ecounter c_off map]. rewrite splice_nil. repeat split; assumption || reflexivity.
+      + destruct (skipn pos inp) as [|x r] eqn:Er.
+        * assert (length (skipn pos inp) = S sz) by (rewrite skipn_length; lia). rewrite Er in H. discriminate.
+        * cbn [crypt_loop] in Hl. discriminate.
+    - destruct size as [|sz].
+      + rewrite skipn_all2 in Hl by lia. cbn [crypt_loop] in Hl. inversion Hl; subst.
+        exists cnt, ecnt. cbn [c_lanes c_ecounter c_off map]. rewrite splice_nil. repeat split; assumption || reflexivity.
+      + assert (Hrem : length (skipn pos inp) = S sz) by (rewrite skipn_length; lia).
+        destruct (skipn pos inp) as [|x r] eqn:Er; [discriminate|]. rewrite <- Er in Hl, Hrem.
+        assert (Hstep : loop (S f) (st cnt ecnt off) (skipn pos inp)
+                = if Nat.leb (BS bs 1) off then
+                    let c1 := refill unit (fun _ => E) 1 (st cnt ecnt off) in
+                    if Nat.leb (BS bs 1) (length (skipn pos inp)) then
+                      match loop f c1 (skipn (BS bs 1) (skipn pos inp)) with
+                      | Some (c2, out) => Some (c2, xor_bytes (firstn (BS bs 1) (skipn pos inp)) (c_ecounter c1) ++ out)
+                      | None => None end
+                    else Some (with_off unit c1 (length (skipn pos inp)), xor_bytes (skipn pos inp) (c_ecounter c1))
+                  else
+                    let temp := Nat.min (BS bs 1 - off) (length (skipn pos inp)) in
+                    match loop f (with_off unit (st cnt ecnt off) (off + temp)) (skipn temp (skipn pos inp)) with
+                    | Some (c2, out) => Some (c2, xor_bytes (firstn temp (skipn pos inp)) (skipn off ecnt) ++ out)
+                    | None => None end).
+        { rewrite Er. reflexivity. }
+        rewrite Hstep in Hl. clear Hstep. rewrite !BS1, Hrem in Hl.
+        cbn [cmicro].
+        destruct (Nat.leb bs off) eqn:Eoff.
+        * (* refill *)
+          apply Nat.leb_le in Eoff. assert (off = bs) by lia. subst off.
+          unfold refill in Hl. cbn [c_key c_lanes c_ecounter c_off map concat] in Hl. rewrite app_nil_r in Hl.
+          change (N.of_nat 1) with 1%N in Hl.
+          rewrite mixed_sem_cons, Sproc by assumption. rewrite mixed_sem_cons, entry_sem_none, Sinc by assumption.
+          destruct (Nat.leb bs (S sz)) eqn:Esz.
+          -- apply Nat.leb_le in Esz.
+             destruct (loop f (st (inc_counter cnt 1) (E cnt) bs) (skipn bs (skipn pos inp))) as [[c2 out]|] eqn:Er2; [|discriminate].
+             inversion Hl; subst c' outb. clear Hl.
+             rewrite mixed_sem_cons, entry_sem_none.
+             rewrite Sxor0 by (rewrite ?inc_counter_length, ?HE; lia || assumption).
+             rewrite <- skipn_add in Er2.
+             assert (LE : length (E cnt) = bs) by (apply HE; exact Hc).
+             destruct (IH bs (S sz - bs) (pos + bs) (spl O pos (bitsB (xor_bytes (slice inp pos bs) (slice (E cnt) 0 bs))))
+                         (inc_counter cnt 1) (E cnt) c2 out) as (cnt' & ecnt' & K1 & K2 & K3 & K4 & KL & K5);
+               try (rewrite ?inc_counter_length; assumption); try lia.
+             { rewrite splice_length; [exact HO|]. rewrite map_length, xor_bytes_length. unfold slice.
+               rewrite !firstn_length, !skipn_length. lia. }
+             assert (LX : length (xor_bytes (firstn bs (skipn pos inp)) (E cnt)) = bs).
+             { rewrite xor_bytes_length, firstn_length, skipn_length. lia. }
+             exists cnt', ecnt'. repeat split; try assumption.
+             { rewrite app_length, LX, KL. lia. }
+             rewrite K5. f_equal. unfold slice. cbn [skipn]. rewrite (firstn_all2 (E cnt)) by lia.
+             rewrite map_app, splice_app by (rewrite !map_length, LX, KL; lia).
+             rewrite map_length, LX. reflexivity.
+          -- apply Nat.leb_gt in Esz.
+             inversion Hl; subst c' outb. clear Hl.
+             assert (LE : length (E cnt) = bs) by (apply HE; exact Hc).
+             rewrite mixed_sem_cons, entry_sem_none, Sxor0 by (rewrite ?inc_counter_length, ?HE; lia || assumption).
+             rewrite mixed_sem_cons, entry_sem_none, Soff by (rewrite ?inc_counter_length, ?HE; lia || assumption).
+             rewrite mixed_sem_nil.
+             exists (inc_counter cnt 1), (E cnt). cbn [with_off c_lanes c_ecounter c_off c_key].
+             repeat split; try (rewrite ?inc_counter_length; assumption).
+             { rewrite xor_bytes_length, Hrem. lia. }
+             f_equal. f_equal. f_equal. unfold slice. cbn [skipn].
+             rewrite (firstn_all2 (skipn pos inp)) by lia.
+             rewrite <- Hrem at 1. apply xor_bytes_trunc.
+        * (* left-over key stream *)
+          apply Nat.leb_gt in Eoff. cbv zeta in Hl.
+          set (temp := Nat.min (bs - off) (S sz)) in *.
+          assert (Ht : temp <= bs - off /\ temp <= S sz /\ 0 < temp) by (unfold temp; lia).
+          destruct (loop f (with_off unit (st cnt ecnt off) (off + temp)) (skipn temp (skipn pos inp))) as [[c2 out]|] eqn:Er2; [|discriminate].
+          inversion Hl; subst c' outb. clear Hl.
+          rewrite mixed_sem_cons, entry_sem_none, Sxor by (lia || assumption).
+          rewrite mixed_sem_cons, entry_sem_none, Soff by assumption.
+          rewrite <- skipn_add in Er2. unfold with_off in Er2. cbn [c_key c_lanes c_ecounter] in Er2.
+          destruct (IH (off + temp) (S sz - temp) (pos + temp)
+                      (spl O pos (bitsB (xor_bytes (slice inp pos temp) (slice ecnt off temp)))) cnt ecnt c2 out)
+            as (cnt' & ecnt' & K1 & K2 & K3 & K4 & KL & K5); try assumption; try lia.
+          { rewrite splice_length; [exact HO|]. rewrite map_length, xor_bytes_length. unfold slice.
+            rewrite !firstn_length, !skipn_length. lia. }
+          assert (LX : length (xor_bytes (firstn temp (skipn pos inp)) (skipn off ecnt)) = temp).
+          { rewrite xor_bytes_length, firstn_length, !skipn_length. lia. }
+          exists cnt', ecnt'. repeat split; try assumption.
+          { rewrite app_length, LX, KL. lia. }
+          rewrite K5. f_equal.
+          assert (EX : xor_bytes (slice inp pos temp) (slice ecnt off temp) = xor_bytes (firstn temp (skipn pos inp)) (skipn off ecnt)).
+          { unfold slice. replace temp with (length (firstn temp (skipn pos inp))) at 2 by (rewrite firstn_length, skipn_length; lia).
+            apply xor_bytes_trunc. }
+          rewrite EX. rewrite map_app, splice_app by (rewrite !map_length, LX, KL; lia).
+          rewrite map_length, LX. reflexivity.
+  Qed.
+
+End Main.
+
+(* ================================================================================================== *)
+(* the final statement: a checked CTR encryption function computes ModelCtr.crypt on the image            *)
+(* ================================================================================================== *)
+Theorem pctr_model : forall fields code fuel pl sh pl' sh' c t bs kn coff fno off size plen,
+  fields_okb fields = true ->
+  flat fields fuel pl sh code = Some (pl', sh', c, t) ->
+  check_proc [size; size; 16; coff + bs + bs + 4 + plen] c
+    (cspec poly pxor pand pzero pone bs kn coff (coff + bs) (coff + bs + bs) fno off size) = true ->
+  forall (cB : nat -> list bool -> list bool) (E : list byte -> list byte)
+         (out inp cnt ecnt : list byte) (CO KS pad : list (list bool)),
+  0 < bs -> kn <= coff -> off <= bs ->
+  length out = size -> length inp = size -> length cnt = bs -> length ecnt = bs ->
+  length CO = 16 -> bytes8 CO -> length KS = coff -> bytes8 KS -> length pad = plen -> bytes8 pad ->
+  (forall blk, length blk = bs -> length (E blk) = bs) ->
+  (forall blk, length blk = bs -> cB fno (concat (bitsB blk) ++ concat (firstn kn KS)) = concat (bitsB (E blk))) ->
+  let m0 := img (bitsB inp) CO KS pad (bitsB out) cnt ecnt off in
+  Inv fields sh m0 ->
+  forall c' outb,
+  crypt unit (fun _ => E) bs 1 {| c_key := tt; c_lanes := [cnt]; c_ecounter := ecnt; c_off := off |} inp = Some (c', outb) ->
+  exists st' cnt' ecnt',
+    interp fields cB fuel pl (m0, []) code = Some (pl', st', t) /\
+    c_lanes c' = [cnt'] /\ c_ecounter c' = ecnt' /\
+    fst st' = img (bitsB inp) CO KS pad (bitsB outb) cnt' ecnt' (c_off c').
+Proof.
+  intros fields code fuel pl sh pl' sh' c t bs kn coff fno off size plen Hf Hfl Hk cB E out inp cnt ecnt CO KS pad
+         Hbs Hkn Hoff Ho Hi Hc He HCO HCO8 HKS HKS8 Hpad Hpad8 HE Hcb m0 HI c' outb Hcr.
+  unfold byte in *.
+  assert (Hm : shaped [size; size; 16; coff + bs + bs + 4 + plen] m0).
+  { apply shapedF_shaped. unfold m0, img. repeat constructor; try (rewrite map_length; assumption); try apply bits_len8; try assumption.
+    - rewrite !app_length, !map_length, rbytes_len. lia.
+    - apply ctx_bytes8; assumption. }
+  destruct (pctr_final fields code fuel pl sh pl' sh' c t _ bs kn coff (coff + bs) (coff + bs + bs) fno off size Hf Hfl Hk cB m0 Hm HI)
+    as [Hint Hsem].
+  unfold crypt in Hcr.
+  destruct (cmicro_model bs kn coff fno cB E (bitsB inp) CO KS pad inp eq_refl HKS HKS8 Hpad8 Hkn Hbs HE Hcb
+              (S (length inp)) off size 0 (bitsB out) cnt ecnt c' outb Hc He Hoff) as (cnt' & ecnt' & K1 & K2 & K3 & K4 & KL & K5).
+  - unfold byte in *. lia.
+  - rewrite map_length. unfold byte in *. lia.
+  - cbn [skipn]. exact Hcr.
+  - exists (execB cB c (m0, [])), cnt', ecnt'. split; [exact Hint|]. split; [exact K1|]. split; [exact K2|].
+    rewrite Hsem. unfold byte in *. rewrite Hi in K5. unfold m0. rewrite K5. f_equal.
+    unfold splice. cbn [firstn app plus]. rewrite map_length, KL, skipn_all2 by (rewrite map_length; lia). apply app_nil_r.
+Qed.
+Print Assumptions cmicro_model.
+Print Assumptions pctr_model.
